@@ -86,6 +86,7 @@ type sched struct {
 	stop           bool // an invariant failed: finish without further switching
 	viol           *Violation
 	invariant      func(site int) *Violation
+	noPreempt      bool // the package blocks in ways the scheduler does not model: tasks run to completion
 	overlap        bool // two tasks were inside shared-value operations at the same time
 	preemptedSites map[int]bool
 	preIdx         map[int]int
@@ -148,11 +149,12 @@ func (s *sched) run() {
 	}
 	first := s.tasks[s.pol.First%len(s.tasks)]
 	s.cur = first
-	old := s.c.yieldFn
+	old, oldB := s.c.yieldFn, s.c.blockedFn
 	s.c.yieldFn = s.yield
+	s.c.blockedFn = s.blocked
 	first.resume <- struct{}{}
 	<-s.finished
-	s.c.yieldFn = old
+	s.c.yieldFn, s.c.blockedFn = old, oldB
 }
 
 func (s *sched) note(from, to *simTask, site int) {
@@ -212,7 +214,7 @@ func (s *sched) yield(site int) {
 			}
 		}
 	}
-	if s.stop {
+	if s.stop || s.noPreempt {
 		return
 	}
 	mid := 0
@@ -262,6 +264,36 @@ func (s *sched) yield(site int) {
 	}
 	s.preemptedSites[site] = true
 	s.note(t, next, site)
+	s.cur = next
+	next.resume <- struct{}{}
+	<-t.resume
+}
+
+// blocked is called by the running task when it cannot take a lock (or waits
+// for a sync.Once that another task is executing): control must go to another
+// task, chosen round-robin so that the holder eventually runs.
+func (s *sched) blocked() {
+	t := s.cur
+	if t == nil {
+		return
+	}
+	s.step++
+	r := s.runnable()
+	var next *simTask
+	for _, x := range r {
+		if x.id > t.id {
+			next = x
+			break
+		}
+	}
+	if next == nil && len(r) > 0 && r[0] != t {
+		next = r[0]
+	}
+	if next == nil {
+		// nobody else can run: the lock can never be released
+		panic(stepLimit{})
+	}
+	s.note(t, next, -2)
 	s.cur = next
 	next.resume <- struct{}{}
 	<-t.resume
